@@ -705,16 +705,17 @@ Definition nf_forth (key : string) (e : obj) : res obj :=
       if is_dict h then Ok e else Ok (jset key (JArr (enum_coef 0 l)) (jdel key e))
   end.
 (* sorted(..., key=coef_order): stable insertion sort on the numeric value *)
-Definition num_le (a b : json) : res bool :=
+Definition num_lt (a b : json) : res bool :=
   match a, b with
-  | JNum m1 d1, JNum m2 d2 => Ok (m1 * pow10 d2 <=? m2 * pow10 d1)
+  | JNum m1 d1, JNum m2 d2 => Ok (m1 * pow10 d2 <? m2 * pow10 d1)
   | _, _ => Err "Unmodelled:coef_order is not a number"%string
   end.
+(* x comes from the left of l in the input: it goes before every element that is not strictly smaller *)
 Fixpoint insert_by (x : json * json) (l : list (json * json)) : res (list (json * json)) :=
   match l with
   | [] => Ok [x]
-  | y :: t => let* le := num_le (fst y) (fst x) in     (* y <= x : x goes after y (stable) *)
-              if le then let* t' := insert_by x t in Ok (y :: t') else Ok (x :: l)
+  | y :: t => let* lt := num_lt (fst y) (fst x) in
+              if lt then let* t' := insert_by x t in Ok (y :: t') else Ok (x :: l)
   end.
 Fixpoint sort_by (l : list (json * json)) : res (list (json * json)) :=
   match l with
